@@ -45,15 +45,68 @@ def _slot_value(s, values: Optional[Dict[str, Fraction]], unsigned: bool = False
     return s
 
 
+# Native runs normally use int64 / float64 (the dtypes the compiled kernels serve).  With NARROW set (by the harness, around one
+# native run) all-integer operands are built as int32 instead: a coefficient type the kernels do not serve, so that the
+# pure-numpy fall-back branches of the real code are executed natively as well (the object carrier takes those branches in
+# the symbolic run, so a symbolic finding there replays only on such a dtype).
+NARROW = False
+
+
 def _native_dtype(vals: Sequence) -> Any:
     if all(Fraction(v).denominator == 1 for v in vals):
+        if NARROW and all(abs(Fraction(v)) < 2 ** 31 for v in vals):
+            return numpy.int32
         return numpy.int64
     return numpy.float64
 
 
+class Unrepresentable(BaseException):
+    """A valuation that the requested native dtype cannot hold exactly (a fraction for an integer dtype, a value outside its range):
+    the native run is skipped -- building the operand would silently change the input."""
+
+
 def _native(v, dt):
     f = Fraction(v)
-    return int(f) if dt == numpy.int64 else float(f)
+    kind = numpy.dtype(dt).kind
+    if kind in "iu":
+        info = numpy.iinfo(dt)
+        if f.denominator != 1 or not (info.min <= f <= info.max):
+            raise Unrepresentable("%s as %s" % (f, numpy.dtype(dt).name))
+        return int(f)
+    if kind == "b":
+        return bool(f)
+    return float(f)
+
+
+def dtype_extremes(dt) -> List[int]:
+    """Exactly representable values at the edges of a dtype (and just beyond the exact range of the next narrower carrier)."""
+    dt = numpy.dtype(dt)
+    if dt.kind == "b":
+        return [1, 0, 1]
+    if dt.kind in "iu":
+        info = numpy.iinfo(dt)
+        out = [info.max, info.max - 1, 1]
+        if info.min < 0:
+            out += [info.min, info.min + 1, -1]
+        for v in (2 ** 53 + 1, 2 ** 32 + 5, 2 ** 31 + 3, 2 ** 24 + 1, 2 ** 16 + 7, 200, 130):
+            if v <= info.max:
+                out.append(v)
+                break
+        return out
+    mant = {2: 11, 4: 24, 8: 53}.get(dt.itemsize if dt.kind == "f" else dt.itemsize // 2, 24)
+    return [2 ** mant - 1, -(2 ** mant - 1), 2 ** (mant - 1) + 1, 1, -3]
+
+
+def extreme_poly_spec(names, exps, shape, dt, rng: random.Random, zero_prob: float = 0.15, mode: str = "raw") -> Dict:
+    """Literal-only polynomial whose native runs use dtype ``dt`` and coefficients at that dtype's edges (symbolically: the same
+    exact numbers).  For the native dtype layer of properties whose quantifier says "arbitrary dtypes"."""
+    ext = dtype_extremes(dt)
+    n = size_of(shape)
+    slots = [[(0 if rng.random() < zero_prob else rng.choice(ext)) for _ in range(n)] for _ in exps]
+    if all(v == 0 for col in slots for v in col):
+        slots[0][0] = ext[0]
+    spec = {"kind": "poly", "names": list(names), "exps": [list(e) for e in exps], "shape": list(shape), "slots": slots, "mode": mode, "dtype": numpy.dtype(dt).str if numpy.dtype(dt).byteorder == ">" else numpy.dtype(dt).name}
+    return spec
 
 
 def apply_view(a, view):
@@ -95,8 +148,7 @@ def build_operand(spec: Dict, values: Optional[Dict[str, Fraction]] = None):
             dt: Any = object
             arrs = [oarray(col, shape) for col in cols]
         else:
-            dt = spec.get("dtype") or _native_dtype([v for col in cols for v in col])
-            dt = numpy.dtype(dt).type
+            dt = numpy.dtype(spec.get("dtype") or _native_dtype([v for col in cols for v in col]))  # (keeps a byte order given in the spec)
             arrs = [numpy.array([_native(v, dt) for v in col], dtype=dt).reshape(shape) for col in cols]
         names = tuple(spec["names"])
         if spec.get("mode", "raw") == "clean":
@@ -115,7 +167,7 @@ def build_operand(spec: Dict, values: Optional[Dict[str, Fraction]] = None):
     if kind == "array":
         if values is None:
             return oarray(vals, shape)
-        dt = _native_dtype(vals)
+        dt = numpy.dtype(spec["dtype"]) if spec.get("dtype") else _native_dtype(vals)
         return numpy.array([_native(v, dt) for v in vals], dtype=dt).reshape(shape)
     if kind == "list":
         if values is None:
